@@ -591,6 +591,12 @@ def paths_cases(texts, tmp, res, dl):
                     keys = ["", "-k", "-K"][n % 3]
                     sep = ["dot", "fslash"][n % 2]
                     expand = n % 4 == 0
+                    # reference handling: default (= -Y), -A, -y, -Y, -l
+                    aflag, kal, val_al = [("", True, False),
+                                          ("-A", False, False),
+                                          ("-y", False, True),
+                                          ("-Y", True, False),
+                                          ("-l", True, True)][(n // 5) % 5]
                     terms = SearchTerms(inv, PathSearchMethods[method], ".",
                                         term)
                     proc = EYAMLProcessor(gdocs.logger(), doc)
@@ -601,15 +607,16 @@ def paths_cases(texts, tmp, res, dl):
                             else PathSeparators.DOT, "", None,
                             search_values=keys != "-K",
                             search_keys=keys in ("-k", "-K"),
-                            search_anchors=False, include_key_aliases=False,
-                            include_value_aliases=False, decrypt_eyaml=False,
+                            search_anchors=False, include_key_aliases=kal,
+                            include_value_aliases=val_al, decrypt_eyaml=False,
                             expand_children=expand, all_anchors={})]
                     except Exception:
                         continue
                     expr = ("!" if inv else "") + sym + term
                     argv = ["-s", expr, "-t", sep, "-F", "-X", "-S"] + \
                         ([keys] if keys else []) + (["-m"] if expand
-                                                    else []) + [fname]
+                                                    else []) + \
+                        ([aflag] if aflag else []) + [fname]
                     res.evaluations += 1
                     case = {"tool": "yaml-paths", "argv": argv[:-1],
                             "doc": text}
@@ -635,7 +642,9 @@ def paths_cases(texts, tmp, res, dl):
                     if dedup:
                         res.nontrivial(key=["paths", text, argv[:-1]],
                                        sample=False)
-                    res.label("yaml-paths:%s" % (keys or "values"))
+                    res.label("yaml-paths:%s%s" % (keys or "values",
+                                                   " " + aflag if aflag
+                                                   else ""))
         if dl.expired():
             return
 
